@@ -161,7 +161,8 @@ def small_tables():
 
 def random_table(rng):
     n = rng.pick([1, 2, 3, 3, 4, 4])
-    return [{'rid': 'r%d' % i, 'pattern': rng.pick(PATTERNS), 'methods': rng.pick(METHOD_SETS), 'beh': rng.pick(BEHS)}
+    return [{'rid': 'r%d' % i, 'pattern': rng.pick(PATTERNS), 'methods': rng.pick(METHOD_SETS), 'beh': rng.pick(BEHS),
+             'with_render': rng.chance(0.4)}
             for i in range(n)]
 
 
